@@ -116,6 +116,19 @@ func checkC01(c *core.Ctx, pc pcase) {
 				return
 			}
 			c.Bucket("serialisation-retained-across-later-calls/" + pc.p.Kind)
+			// ... and the caller edits that OTHER value through everything its public surface lets it
+			// write (exported fields, the slices and pointers found there): the first value is a
+			// value of its own and still serialises to the bytes it was read from
+			if v := reflect.ValueOf(out.Val); out.Val != nil && out2.Val != nil && !isBytesType(v) && reflect.ValueOf(out2.Val).Kind() == reflect.Ptr {
+				if n := lib.ScribbleExported(out2.Val) + lib.ScribbleViaAccessors(out2.Val); n > 0 {
+					if after, ok := reserialise(v); ok && !bytes.Equal(after, consumed) {
+						c.Violate(pc.p.Name, "serialisation-changed-when-another-value-was-edited", sh, pc.in,
+							fmt.Sprintf("after %d bytes of a second parsed value were changed through its exported fields and what its accessors hand out: %s", n, describeDiff(consumed, after)))
+						return
+					}
+					c.Bucket("independent-of-edits-to-another-value/" + pc.p.Kind)
+				}
+			}
 		}
 	}
 	if pc.class != "wellformed" {
